@@ -130,7 +130,7 @@ class Emitter:
         if op == "yield":
             inner = "None" if x[1] is None else self.e(x[1])
             if self.traced:
-                return f"T.recv(_A, (yield T.yld(_A, {inner})))"
+                return f"T.recv(_A, (yield from T.yielding(_A, {inner})))"
             return "(yield)" if x[1] is None else f"(yield {inner})"
         raise ValueError(f"bad expr {x!r}")
 
@@ -537,6 +537,10 @@ class _NullTracer:
         if name in ("b", "value", "yld", "recv"):
             return lambda *a: a[-1]
         return lambda *a: None
+
+    def yielding(self, a, v):
+        got = yield v
+        return got
 
 
 T = _NullTracer()
